@@ -1,6 +1,7 @@
 import Driver.Proto
 import PdtVerif.Model.CtcPrefix
 import PdtVerif.Model.CtcFusion
+import PdtVerif.Model.CtcFast
 import PdtVerif.Spec.Ctc
 import Std.Data.HashMap
 /-! Driver for C05: runs the array model of `ctc_prefix_search_advance` / the module loop on
@@ -55,8 +56,8 @@ def selViolation (cand : List XR) (sel : List Nat) : Rat :=
   let lastSel : Option XR := vals.getLast?
   let outside : Rat := match lastSel with
     | none => 0
-    | some m => (List.range cand.length).foldl (fun acc i =>
-        if sel.contains i then acc else max acc (gap (getX cand i) m)) 0
+    | some m => cand.zipIdx.foldl (fun acc xi =>
+        if sel.contains xi.2 then acc else max acc (gap xi.1 m)) 0
   max (adj vals) outside
 
 def stateJson (st : State) : Json :=
@@ -79,7 +80,7 @@ def stepJson (V width : Nat) (carried : State) (o : StepOut) : Json :=
     ("sel", listJ natJ o.sel),
     ("K", natJ K),
     ("V", natJ V),
-    ("sel_ok", boolJ (isTopK o.cand K o.sel)),
+    ("sel_ok", boolJ (isTopKFast o.cand K o.sel)),  -- = isTopK (theorem C05_topk_fast)
     ("sel_violation", ratToJson (selViolation o.cand o.sel)),
     ("cand_finite", natJ (o.cand.filter XR.isFin).length),
     ("cand_nan", boolJ (o.cand.any XR.isNan))]
@@ -112,11 +113,16 @@ def beamOfState (st : State) : PdtVerif.Ctc.Beam :=
 /-! ### specification side -/
 open PdtVerif.Ctc in
 def mkFrame (V : Nat) (tok : List Rat) (blank : Rat) (tab : List (List Nat × List Rat)) : Frame :=
+  -- the table as a hash map (first entry of a prefix wins, like `List.lookup`) and the rows / token
+  -- probabilities as arrays: the tables of wide beams hold hundreds of prefixes
+  let hm : Std.HashMap (List Nat) (Array Rat) := tab.foldl (fun m e => m.insertIfNew e.1 e.2.toArray) {}
+  let tokA := tok.toArray
   { blank := blank
-    tok := fun v => tok.getD v 0
-    ext := fun q v => match tab.lookup q with
+    tok := fun v => tokA.getD v 0
+    ext := if tab.isEmpty then (fun _ v => if v < V then tokA.getD v 0 else 0) else
+      fun q v => match hm.get? q with
       | some row => row.getD v 0
-      | none => if v < V then tok.getD v 0 else 0 }
+      | none => if v < V then tokA.getD v 0 else 0 }
 
 def xrRat : XR → Except String Rat
   | .fin q => .ok q
@@ -197,11 +203,113 @@ def specGo (V : Nat) : List (PdtVerif.Ctc.Frame × Nat) → List (List (List Nat
       (acc ++ [(ok, pruned, cs.length, (k.filter (fun p => cs.contains p)).eraseDups.length)])
   | _, _, bm, acc => (bm, acc)
 
+/-! ### the same recursion for WIDE beams / LARGE vocabularies / LONG runs (glue)
+
+`specGo` evaluates the definitions literally: `List.lookup` in the beam for every read, `eraseDups` and
+`contains` on the candidate list (quadratic), `isTopKB` with a candidate total recomputed for every pair.
+That is fine for the few hundred candidates of the small streams and hopeless for `width · (V + 1)` in the
+thousands.  `specStepFast` computes the same five things with hash maps — the beam as a map (first entry of
+a prefix wins, like `List.lookup`), the candidate set as a set, every candidate total once — and still calls
+the specification's own `stepFn` for every value.  It is cross-checked against `specGo` on every run that is
+small enough for both (`specSide`: all the small streams, hundreds of cases per run), never trusted alone. -/
+open PdtVerif.Ctc in
+def specStepFast (facts : Bool) (V : Nat) (f : Frame) (w : Nat) (k : List (List Nat)) (bm : Beam) :
+    Beam × (Bool × Bool × Nat × Nat) :=
+  let hm : Std.HashMap (List Nat) (Rat × Rat) := bm.foldl (fun m e => m.insertIfNew e.1 e.2) {}
+  let S : List Nat → Rat × Rat := fun p => hm.getD p (0, 0)
+  let cset : Std.HashSet (List Nat) := (cands V bm).foldl (fun s p => s.insert p) {}
+  let ncands := cset.size
+  let kin := k.filter (fun p => cset.contains p)
+  let next : Beam := kin.map (fun p => (p, stepFn V f S p))
+  let kinSet : Std.HashSet (List Nat) := kin.foldl (fun s p => s.insert p) {}
+  let nkeep := kinSet.size
+  let pruned := decide (nkeep < ncands)
+  if !facts then (next, (true, pruned, ncands, nkeep)) else
+  -- isTopKB, every candidate total computed once
+  let tot : List Nat → Rat := fun p => let x := stepFn V f S p; x.1 + x.2
+  let kAll : Std.HashSet (List Nat) := k.foldl (fun s p => s.insert p) {}
+  let kt := k.map tot
+  let rec sorted : List Rat → Bool
+    | a :: b :: r => decide (b ≤ a) && sorted (b :: r)
+    | _ => true
+  let best : Bool := match kt with
+    | [] => true
+    | x :: r =>
+      let m := r.foldl min x
+      cset.fold (fun acc p => acc && (kAll.contains p || decide (tot p ≤ m))) true
+  let ok := kAll.size == k.length && k.all (fun p => cset.contains p)
+    && k.length == min w ncands && sorted kt && best
+  (next, (ok, pruned, ncands, nkeep))
+
+def specGoFast (facts : Bool) (V : Nat) : List (PdtVerif.Ctc.Frame × Nat) → List (List (List Nat)) → PdtVerif.Ctc.Beam →
+    List (Bool × Bool × Nat × Nat) → PdtVerif.Ctc.Beam × List (Bool × Bool × Nat × Nat)
+  | (f, w) :: fs, k :: ks, bm, acc =>
+    let r := specStepFast facts V f w k bm
+    specGoFast facts V fs ks r.1 (acc ++ [r.2])
+  | _, _, bm, acc => (bm, acc)
+
+/-- all prefixes of the given prefixes (each once), shortest first within one prefix -/
+def prefixClosure (ps : List (List Nat)) : List (List Nat) :=
+  let step := fun (acc : Std.HashSet (List Nat) × List (List Nat)) (q : List Nat) =>
+    if acc.1.contains q then acc else (acc.1.insert q, q :: acc.2)
+  let r := ps.foldl (fun acc p => (List.range (p.length + 1)).foldl (fun a j => step a (p.take j)) acc) ({}, [])
+  r.2.reverse
+
+/-- TRUE MASS of the given prefixes without enumerating alignments: the specification's recursion with the
+SAME survivors at every frame, namely all prefixes of the given prefixes.  A prefix-closed set of survivors
+loses nothing of its members' mass (the forward recursion of a prefix reads the prefix and its parent only):
+theorem `C05_closed_survivors` (`beamRun` with such survivors = `Ctc.exact` = the sum over all alignments,
+`C05_forward_eq_mass`).  Cross-checked against the enumeration whenever that is computed. -/
+def massDP (V : Nat) (frames : List PdtVerif.Ctc.Frame) (ps : List (List Nat)) : List (List Nat × Rat) :=
+  let q := prefixClosure ps
+  let bm := (specGoFast false V (frames.map (fun f => (f, 0))) (frames.map (fun _ => q)) PdtVerif.Ctc.beamInit []).1
+  let hm : Std.HashMap (List Nat) (Rat × Rat) := bm.foldl (fun m e => m.insertIfNew e.1 e.2) {}
+  ps.map (fun p => let x := hm.getD p (0, 0); (p, x.1 + x.2))
+
+/-- TRUE MASS of one prefix by the classical forward algorithm over the POSITIONS of the prefix (for runs of
+hundreds of frames, where `massDP` spends its time hashing long prefixes): `nb[j]`, `b[j]` = forward
+variables of `p.take j`; one frame is `stepFn` written out for the chain of the prefixes of `p`
+(`stay = nb[j] · tok p[j-1]`, `grow = (b[j-1] + [p[j-2] ≠ p[j-1]] · nb[j-1]) · ext (p.take (j-1)) p[j-1]`,
+`b'[j] = (nb[j] + b[j]) · blank`).  Glue: cross-checked in `specSide` against `massDP` (theorem-backed) on
+every run of moderate length and against the enumeration of all alignments on every small run. -/
+def massPos (V : Nat) (frames : List PdtVerif.Ctc.Frame) (fused : Bool) (p : List Nat) : Rat :=
+  let pa := p.toArray
+  let L := pa.size
+  -- the prefixes of `p` (needed only for per-prefix extension scores)
+  let pre : Array (List Nat) := if fused then ((List.range (L + 1)).map (fun j => p.take j)).toArray else #[]
+  let init : Array Rat × Array Rat := (Array.replicate (L + 1) 0, (Array.replicate (L + 1) 0).set! 0 1)
+  let fin := frames.foldl (fun (st : Array Rat × Array Rat) f =>
+    let nb := st.1
+    let b := st.2
+    let nb' := (Array.range (L + 1)).map (fun j =>
+      if j = 0 then (0 : Rat) else
+        let v := pa.getD (j - 1) 0
+        let stay := nb.getD j 0 * f.tok v
+        let grow := if v < V then
+            (b.getD (j - 1) 0 + (if j ≥ 2 && pa.getD (j - 2) 0 == v then 0 else nb.getD (j - 1) 0))
+              * f.ext (if fused then pre.getD (j - 1) [] else []) v
+          else 0
+        stay + grow)
+    let b' := (Array.range (L + 1)).map (fun j => (nb.getD j 0 + b.getD j 0) * f.blank)
+    (nb', b')) init
+  fin.1.getD L 0 + fin.2.getD L 0
+
 /-- the specification side for given frames: prefix-beam recursion pruned to `keeps` (`beam`), per-frame
-facts (`frames`), true mass of every prefix by enumeration of all alignments (`mass`, when wanted) -/
+facts (`frames`), true mass: of every prefix by enumeration of all alignments (`mass`, when wanted), of the
+prefixes `massFor` by the recursion with prefix-closed survivors (`mass_dp`) -/
 def specSide (V : Nat) (specFrames : List PdtVerif.Ctc.Frame) (widths : List Nat)
-    (keeps : List (List (List Nat))) (beam0 : PdtVerif.Ctc.Beam) (wantMass : Bool) : Except String Json := do
-  let (beam, info) := specGo V (specFrames.zip widths) keeps beam0 []
+    (keeps : List (List (List Nat))) (beam0 : PdtVerif.Ctc.Beam) (wantMass : Bool)
+    (massFor : Option (List (List Nat))) (fused : Bool) (wantTopk : Bool) : Except String Json := do
+  -- the definitions, literally, on every run that is small enough (everything but the size classes)
+  let literal := V ≤ 3 && widths.all (· ≤ 50) && specFrames.length ≤ 8
+  -- `topk_ok` (is the implementation's choice of survivors a legitimate top-K of the candidate totals?) needs the
+  -- total of EVERY candidate; the tolerance streams do not use it (there the model's `isTopK` is measured with a
+  -- tolerance instead), so the size classes of those streams skip it
+  let (beam, info) := specGoFast (wantTopk || literal) V (specFrames.zip widths) keeps beam0 []
+  if literal then
+    let (beam', info') := specGo V (specFrames.zip widths) keeps beam0 []
+    if beam' != beam || info' != info then
+      throw "internal: the hash-map evaluation of the prefix-beam recursion disagrees with specGo (beamStep / isTopKB)"
   let table := if wantMass then massTable V specFrames else []
   -- cross-check the glue against the definitions on the first entries
   -- (the cross-checks re-enumerate; they are done on the short runs only, where most cases are)
@@ -211,29 +319,57 @@ def specSide (V : Nat) (specFrames : List PdtVerif.Ctc.Frame) (widths : List Nat
   let ex := PdtVerif.Ctc.exact V specFrames
   let chk2 := !small || (table.take 3).all (fun (p, m) => (ex p).1 + (ex p).2 == m)
   if !chk2 then throw "internal: forward variables disagree with alignment enumeration (theorem exact_eq_mass)"
+  let dp : Option (List (List Nat × Rat)) := massFor.map (fun ps => ps.map (fun p => (p, massPos V specFrames fused p)))
+  -- ... against the recursion with prefix-closed survivors (`C05_closed_survivors`) on runs of moderate length
+  match massFor with
+  | some ps =>
+    if specFrames.length * (prefixClosure ps).length ≤ 1500 then
+      if some (massDP V specFrames ps) != dp then
+        throw "internal: the forward algorithm over positions disagrees with the recursion with prefix-closed survivors"
+  | none => pure ()
+  -- the recursion with prefix-closed survivors against the enumeration of all alignments, on every prefix asked for
+  match dp with
+  | some l =>
+    if wantMass then
+      let tm : Std.HashMap (List Nat) Rat := table.foldl (fun m e => m.insert e.1 e.2) {}
+      if !(l.all (fun (p, m) => tm.getD p 0 == m)) then
+        throw "internal: mass by the forward algorithm disagrees with the enumeration of all alignments"
+  | none => pure ()
+  let massJ := fun (l : List (List Nat × Rat)) =>
+    listJ (fun (e : List Nat × Rat) => objJ [("p", prefJ e.1), ("m", ratToJson e.2)]) l
   return objJ [
     ("beam", listJ (fun (e : List Nat × (Rat × Rat)) =>
         objJ [("p", prefJ e.1), ("nb", ratToJson e.2.1), ("b", ratToJson e.2.2)]) beam),
     ("frames", listJ (fun (x : Bool × Bool × Nat × Nat) =>
         objJ [("topk_ok", boolJ x.1), ("pruned", boolJ x.2.1), ("ncands", natJ x.2.2.1),
               ("nkeep", natJ x.2.2.2)]) info),
-    ("mass", if wantMass then
-        listJ (fun (e : List Nat × Rat) => objJ [("p", prefJ e.1), ("m", ratToJson e.2)]) table
-      else Json.null)]
+    ("mass", if wantMass then massJ table else match dp with
+      | some l => massJ l
+      | none => Json.null),
+    ("mass_kind", strJ (if wantMass then "enumeration" else if dp.isSome then "forward" else "none"))]
 
 /-- One batch element. common: {fix, V, width, spec?}; element: {len, frames:[{ext,nonext,blank,sel?}],
-init?: state, ext_table?: per frame [[prefix,[row]]..], keeps?: per frame [prefix..],
+init?: state, ext_table?: per frame [[prefix,[row]]..], keeps?: per frame [prefix..], model?: bool (false: the
+array model is not run), topk?: bool (false: `topk_ok` of the specification not wanted), mass?: bool (enumeration), mass_for?: [prefix..] (forward algorithm), skip?: true,
 lm_factor?: per frame [[prefix,[LM factor per token]]..], mix?: "n/d" | null,
 oracle?: {frames: [{tok, blank}..] (the element's valid frames), ext_table?}} →
 {model, spec (on the frames of the calls), spec_exact (on the oracle frames, same survivors)}. -/
 def c05Elem (fix : Bool) (V width : Nat) (wantSpec : Bool) (c : Json) : Except String Json := do
+  -- `skip: true`: an element of a large batch that the harness judges without Lean (a sample goes through)
+  if (fieldOpt c "skip").isSome then
+    return objJ [("model", Json.null), ("spec", Json.null), ("spec_exact", Json.null)]
   let len ← getNat c "len"
   let frames ← getList parseFrame c "frames"
   let widths ← getList (fun j => pure (frameWidth width j)) c "frames"
   let st0 ← match fieldOpt c "init" with
     | none => pure initState
     | some j => parseState j
-  let steps := loopStates fix V len 0 st0 (frames.zip widths)
+  -- `model: false` (the largest size classes): the array model is not run, the element is judged by the
+  -- specification alone (survivors `keeps` must be given)
+  let runModel := match fieldOpt c "model" with
+    | some (.bool b) => b
+    | _ => true
+  let steps := if runModel then loopStates fix V len 0 st0 (frames.zip widths) else []
   let final := match steps.getLast? with
     | some (s, _) => s
     | none => st0
@@ -253,7 +389,7 @@ def c05Elem (fix : Bool) (V width : Nat) (wantSpec : Bool) (c : Json) : Except S
     | some j => do
       let tabs ← jsonToList (jsonToList parseFactorRow) j
       pure (listJ (listJ (listJ xrToJson)) (lmExts V mix (st0 :: (steps.map (·.1)).dropLast) frames tabs))
-  let modelJ := objJ [
+  let modelJ := if !runModel then Json.null else objJ [
     ("lm_states", lmJ),
     ("lm_ext", extJ),
     ("result", objJ [("prefixes", listJ prefJ res.prefixes), ("lens", listJ natJ res.lens),
@@ -285,7 +421,14 @@ def c05Elem (fix : Bool) (V width : Nat) (wantSpec : Bool) (c : Json) : Except S
   let wantMass := !fromInit && (match fieldOpt c "mass" with
     | some (.bool b) => b
     | _ => true)
-  let specJ ← specSide V specFrames widths keeps beam0 wantMass
+  let massFor : Option (List (List Nat)) ← match fieldOpt c "mass_for" with
+    | none => pure none
+    | some .null => pure none
+    | some j => if fromInit then pure none else some <$> jsonToList (jsonToList jsonToNat) j
+  let wantTopk := match fieldOpt c "topk" with
+    | some (.bool b) => b
+    | _ => true
+  let specJ ← specSide V specFrames (widths.take len) keeps beam0 wantMass massFor (fieldOpt c "ext_table").isSome wantTopk
   -- the same specification on the frames the harness computed from the CALLER'S scores (exact softmax /
   -- fusion of the logits, no torch): `oracle: {frames: [{tok, blank}..], ext_table?}`, same survivors
   let exactJ ← match fieldOpt c "oracle" with
@@ -301,7 +444,7 @@ def c05Elem (fix : Bool) (V width : Nat) (wantSpec : Bool) (c : Json) : Except S
       let oFrames := (ofr.zip (otabs ++ List.replicate ofr.length [])).map
         (fun ((tok, bl), tab) => mkFrame V tok bl tab)
       if oFrames.length != specFrames.length then throw "oracle: one frame per valid frame of the element expected"
-      specSide V oFrames widths keeps beam0 wantMass
+      specSide V oFrames (widths.take len) keeps beam0 wantMass massFor (fieldOpt o "ext_table").isSome wantTopk
   return objJ [("model", modelJ), ("spec", specJ), ("spec_exact", exactJ)]
 
 /-- case: {fix, V, width, spec?, elements: [element..]} → {"elements": [{model, spec}..]}. -/
